@@ -344,6 +344,115 @@ def rule_r6(repo, run):
               wp.loc(md))
 
 
+def rule_r7(repo, run):
+    R = run.rule("C03.R7", "the per-arity snapshot of the code lists (default arguments) records, for each list, "
+                           "its own length at the place the consumer slices it")
+    wm = repo.module("wrapp")
+    f = wm.func("Wrapp.wrap_function")
+    cons = [n for n in ast.walk(f) if isinstance(n, ast.For) and isinstance(n.target, ast.Tuple)
+            and pyflow.is_name(n.iter, "default_calls")]
+    if len(cons) != 1:
+        raise AnalysisError("C03.R7: consumer loop over default_calls not found")
+    lp = cons[0]
+    names = [e.id if isinstance(e, ast.Name) else None for e in lp.target.elts]
+    slot = {}
+    for node in ast.walk(lp):
+        if isinstance(node, ast.Subscript) and isinstance(node.slice, ast.Slice) and node.slice.lower is None \
+                and isinstance(node.slice.upper, ast.Name) and node.slice.upper.id in names \
+                and isinstance(node.value, ast.Name):
+            slot.setdefault(names.index(node.slice.upper.id), set()).add(node.value.id)
+    run.floor(R, "sliced code lists in the consumer", len(slot), 3)
+    prods = [n for n in ast.walk(f) if isinstance(n, ast.Call) and (pyflow.call_name(n) or "") == "default_calls.append"]
+    run.floor(R, "snapshot producers", len(prods), 2)
+    for k, pr in enumerate(prods):
+        tup = pr.args[0] if pr.args else None
+        if not isinstance(tup, ast.Tuple) or len(tup.elts) != len(names):
+            run.check(R, "wrapp.Wrapp.wrap_function:default_calls.append#%d" % k, False,
+                      "snapshot tuple has %s elements, the consumer unpacks %d"
+                      % (len(tup.elts) if isinstance(tup, ast.Tuple) else "?", len(names)), wm.loc(pr))
+            continue
+        for i, lists in sorted(slot.items()):
+            e = tup.elts[i]
+            got = e.args[0].id if (isinstance(e, ast.Call) and pyflow.is_name(e.func, "len") and e.args
+                                   and isinstance(e.args[0], ast.Name)) else None
+            run.check(R, "wrapp.Wrapp.wrap_function:default_calls.append#%d[%s]" % (k, names[i]), got in lists,
+                      "position %d of the snapshot is `%s` but the consumer uses it to slice %s: a call that omits "
+                      "default arguments replays the wrong prefix of %s (conversions of earlier arguments are lost "
+                      "or duplicated)" % (i, wm.seg(e), sorted(lists), sorted(lists)), wm.loc(e),
+                      sample=dict(position=i, unpacked_as=names[i], snapshot=wm.seg(e), slices=sorted(lists)))
+
+
+CONVERTERS = r"(?:PyLong_As\w+|PyInt_As\w+|PyFloat_AsDouble|PyNumber_AsSsize_t|PyComplex_\w+AsDouble|\{Py_get\}|\{PY_get\})"
+
+
+def rule_r8(repo, run, T):
+    R = run.rule("C03.R8", "a numeric conversion from a Python object is checked with PyErr_Occurred(): -1 (or -1.0) "
+                           "is a legitimate value")
+    n = 0
+    texts = []
+    for key, h in sorted(T["helpers"].c.items()):
+        for k, text in tables.helper_sources(h):
+            texts.append(("whelpers.CHelpers[%s].%s" % (key, k), text, "shroud/whelpers.py"))
+    py = T["py"]
+    for name, e in sorted(py.resolve_all("c++").items()):
+        for clause in ("post_parse", "pre_call", "post_call", "declare"):
+            lines = e.lines(clause)
+            if lines:
+                texts.append(("wrapp.py_statements[%s].%s" % (name, clause), "\n".join(lines), py.loc(e.raw)))
+    for where, text, loc in texts:
+        code = templ.strip_c_comments(templ.strip_layout(text)) if hasattr(templ, "strip_layout") else text
+        for m in re.finditer(r"([A-Za-z_{}][\w{}]*)\s*=\s*(?:\([^()]*\)\s*)?(" + CONVERTERS + r")", code):
+            var = m.group(1)
+            rest = code[m.end():m.end() + 400]
+            t = re.search(r"\bif\s*\((.*?)\)\s*(?:\{|\n|goto|return)", rest, re.S)
+            if not t:
+                continue
+            cond = t.group(1)
+            if var not in cond and "PyErr_Occurred" not in cond:
+                continue            # the next test is about something else
+            n += 1
+            ok = "PyErr_Occurred" in cond
+            run.check(R, "%s:%s=%s" % (where, var, m.group(2)), ok,
+                      "the result of %s is tested with `%s` alone: a legitimate value equal to the error sentinel is "
+                      "rejected (TypeError for an element -1)" % (m.group(2), cond.strip()), loc,
+                      sample=dict(where=where, conversion=m.group(2), test=cond.strip()))
+    run.floor(R, "checked numeric conversions", n, 2)
+
+
+def rule_r9(repo, run):
+    R = run.rule("C03.R9", "sizes built as a textual product of user extents parenthesise every extent")
+    n = 0
+    for mname in ("wrapp", "wrapc"):
+        m = repo.module(mname)
+        for q, fn in sorted(m.functions().items()):
+            for j in ast.walk(fn):
+                if not (isinstance(j, ast.Call) and isinstance(j.func, ast.Attribute) and j.func.attr == "join"
+                        and isinstance(j.func.value, ast.Constant) and isinstance(j.func.value.value, str)
+                        and j.func.value.value.replace("\t", "") in ("*", "+", "-", "/") and j.args
+                        and isinstance(j.args[0], ast.Name)):
+                    continue
+                lst = j.args[0].id
+                for a in ast.walk(fn):
+                    if isinstance(a, ast.Call) and isinstance(a.func, ast.Attribute) and a.func.attr == "append" \
+                            and pyflow.is_name(a.func.value, lst) and a.args:
+                        n += 1
+                        x = a.args[0]
+                        tmpl = None
+                        if isinstance(x, ast.Call) and isinstance(x.func, ast.Attribute) and x.func.attr == "format":
+                            tmpl = pyflow.const_str(x.func.value)
+                        elif isinstance(x, ast.Constant) and isinstance(x.value, (int, str)):
+                            tmpl = str(x.value)
+                        safe = tmpl is not None and (
+                            (tmpl.startswith("(") and tmpl.endswith(")")) or
+                            re.match(r"^(\{\}|\w+)((->|\.)\w+|\[(\{\}|\w+)\])*$", tmpl) is not None and "{}" != tmpl)
+                        run.check(R, "%s.%s:%s.append" % (mname, q, lst), safe,
+                                  "operand `%s` of the product `%r.join(%s)` is neither parenthesised nor a postfix "
+                                  "expression: an extent such as nrow+2 changes the size by operator precedence"
+                                  % (m.seg(x), j.func.value.value, lst), m.loc(a),
+                                  sample=dict(function=q, operand=m.seg(x)))
+    run.floor(R, "operands of textual products", n, 2)
+
+
 def run(repo, run, tier):
     tables.check_model_assumptions(repo)
     T = dict(py=tables.StatementTable(repo, "wrapp", "py_statements"),
@@ -355,4 +464,7 @@ def run(repo, run, tier):
     rule_r4(repo, run, T)
     rule_r5(repo, run)
     rule_r6(repo, run)
+    rule_r7(repo, run)
+    rule_r8(repo, run, T)
+    rule_r9(repo, run)
     run.assumptions.append("LP64 sizes; CPython PyArg_Parse / Py_BuildValue unit table in the checker")
